@@ -13,6 +13,7 @@ import (
 type prog struct {
 	items string
 	units []string // background units of one instance, launch order
+	sched []string // scheduler units (exist once the schedule was started)
 	name  string
 }
 
@@ -42,6 +43,9 @@ func mkProg(name, items string) prog {
 	}
 	for _, h := range c.hookOr {
 		p.units = append(p.units, fmt.Sprintf("h%d", h))
+	}
+	for _, z := range c.scheds {
+		p.sched = append(p.sched, fmt.Sprintf("c%d", z.fid))
 	}
 	p.units = append(p.units, "d")
 	if c.opt["retry"] >= 0 {
@@ -219,6 +223,8 @@ func genEngine(p *params, emit func(string, bool)) {
 	switch prop {
 	case "C03", "C08", "C15", "C14":
 		genControl(p, prop, emit)
+	case "C20":
+		genSchedule(p, emit)
 	case "C04":
 		genRedelivery(p, emit)
 		genStaleReads(p, emit)
@@ -637,4 +643,90 @@ func genReturns(p *params, emit func(string, bool)) {
 		ops = append(ops, pr.rounds(3)...)
 		emit(scenario(pr, ops), true)
 	}
+}
+
+// schedules: cron specifications x clock advance sequences x filter answers x completions x lease losses
+func genSchedule(p *params, emit func(string, bool)) {
+	r := p.rng
+	sec := int64(1000000000)
+	type spec struct {
+		id     int
+		period int64
+	}
+	specs := []spec{{1, 60}, {2, 900}, {5, 1800}, {3, 3600}, {4, 86400}}
+	for _, sp := range specs {
+		for _, filt := range []int{0, 2} {
+			pr := mkProg("sched", fmt.Sprintf("S:1:R,1,2:2:0:0:0 Z:5:%d:9:%d Z:6:%d:3:0", sp.id, filt, sp.id))
+			round := func() []string { return append(pr.round(), "st:1/c5", "st:1/c6") }
+			rounds := func(n int) []string {
+				var o []string
+				for i := 0; i < n; i++ {
+					o = append(o, round()...)
+				}
+				return o
+			}
+			steps := []int64{1, sp.period - 1, sp.period, 3 * sp.period, 20}
+			// all advance sequences up to a depth
+			depth := p.pick(3, 5)
+			var rec func(prefix []int64, d int)
+			rec = func(prefix []int64, d int) {
+				if d == 0 {
+					ops := []string{"sched:1:5", "sched:1:6"}
+					ops = append(ops, rounds(2)...)
+					for _, a := range prefix {
+						ops = append(ops, fmt.Sprintf("adv:%d", a*sec))
+						ops = append(ops, rounds(2)...)
+					}
+					emit(scenario(pr, ops), true)
+					return
+				}
+				for _, a := range steps {
+					rec(append(append([]int64{}, prefix...), a), d-1)
+				}
+			}
+			if sp.id == 1 || sp.id == 3 || p.thorough() {
+				rec(nil, depth)
+			}
+			// a run that stays unfinished (paused) across ticks, then is cancelled; lease losses; crashes; an older run
+			for i := 0; i < p.pick(25, 400); i++ {
+				ops := []string{}
+				if r.Intn(3) == 0 {
+					// an earlier run of the foreign ID, created (and finished) before the schedule starts
+					ops = append(ops, "tr:5:0:1")
+					ops = append(ops, pr.rounds(4)...)
+					ops = append(ops, fmt.Sprintf("adv:%d", steps[r.Intn(len(steps))]*sec))
+				}
+				ops = append(ops, "sched:1:5", "sched:1:6")
+				for j := 0; j < 6+r.Intn(10); j++ {
+					switch r.Intn(9) {
+					case 0, 1, 2:
+						ops = append(ops, fmt.Sprintf("adv:%d", steps[r.Intn(len(steps))]*sec))
+					case 3:
+						ops = append(ops, fmt.Sprintf("ct:%d:%d", 1+r.Intn(3), r.Intn(3)))
+					case 4:
+						ops = append(ops, fmt.Sprintf("lose:1/c%d", 5+r.Intn(2)))
+					case 5:
+						if r.Intn(3) == 0 {
+							ops = append(ops, "crash:1", "sched:1:5", "sched:1:6")
+						}
+					default:
+						ops = append(ops, round()...)
+					}
+				}
+				ops = append(ops, rounds(2)...)
+				if r.Intn(3) == 0 {
+					// adapter faults; a crash fault restarts the instance without its schedules (Schedule is an API call
+					// of the application), so crashes are the explicit crash + sched operations above
+					ops = randomFaultRun(r, pr, ops, 1+r.Intn(2))
+					for k := range ops {
+						ops[k] = strings.ReplaceAll(ops[k], ".cr", ".ll")
+					}
+				}
+				emit(scenario(pr, ops), true)
+			}
+		}
+	}
+	// an invalid cron specification is rejected at once and starts nothing
+	pr := mkProg("schedbad", "S:1:R,1,2:2:0:0:0 Z:5:1:9:0")
+	emit(scenario(pr, append([]string{"schedbad:1:5"}, pr.rounds(2)...)), true)
 }
